@@ -48,6 +48,7 @@ CfgDefault == [ maxId      |-> 3,       \* session ids wrap after maxId (65535 i
                 findTTL |-> 3,
                 events |-> <<>>, values0 |-> <<>>, egInterval |-> 0,
                 epOrders |-> {<<>>},   \* iteration orders of the subscribed-endpoint set a round may use (<<>> = one canonical order)   \* SimpleEventgroup: event ids in order, initial values, cyclic interval
+                sess0 |-> <<>>,        \* <<flag, next id>> of the outgoing session counters of a stack that has been up for long (SD2 only)
                 autosub |-> <<>>,      \* [listener -> eventgroup]: listeners that are AutoSubscribeServiceListeners
                 peers |-> <<>> ]
 
